@@ -15,7 +15,9 @@
      d_dp d                   the amplifier's _delta_p;  d_delta_p d  its delta_p (None in gain mode)
      budget_wf [] chain       at every amplifier, the span loss the design reads (cached design_span_loss or the sum the
                               generators reach) is the loss really crossed since the previous amplifier
-     raw_ok raw               no fibre directly followed by a fibre (add_inline_amplifier separates them) *)
+     raw_ok raw               no fibre directly followed by a fibre (add_inline_amplifier separates them) and every
+                              RamanFiber is the last element of its span
+     a RamanFiber carries two INPUTS: its gain estimate at the reference power and at the designed span input power *)
 From Coq Require Import QArith Qminmax Lia.
 From Verif Require Import Prelude Model.Select Model.PowerDesign Proofs.Select Proofs.PowerDesign.
 Open Scope Q_scope.
@@ -48,7 +50,7 @@ Print Assumptions C09_budget_closed_raw.
 Theorem C09_gain_is_loss_plus_change : forall c lib bmin bmax pref_total prev_dp prev_voa nl tp tp_arg prev next a d dp voa,
   set_one c lib bmin bmax pref_total prev_dp prev_voa nl tp tp_arg prev next a = Ok (d, dp, voa) ->
   d_gain d - d_ivoa d == nl + d_dp d - prev_dp + prev_voa /\ d_dp d - d_ovoa d == dp - voa.
-Proof. exact set_one_budget. Qed.
+Proof. exact set_one_budget_edfa. Qed.
 Print Assumptions C09_gain_is_loss_plus_change.
 
 (* ---- the power rule *)
@@ -90,7 +92,7 @@ Theorem C09_dp_saturation : forall c lib bmin bmax pref_total prev_dp prev_voa n
      then pref_total + dp <= a_pmax params /\ (pref_total + dp0 <= a_pmax params -> dp == dp0)
      else pref_total + dp + ozero (an_ivoa a) <= a_pmax params /\
           (pref_total + dp0 + ozero (an_ivoa a) <= a_pmax params -> dp == dp0)).
-Proof. exact dp_saturation. Qed.
+Proof. exact dp_saturation_edfa. Qed.
 Print Assumptions C09_dp_saturation.
 
 (* total design power never exceeds the amplifier's maximum output, automatic VOA included (it is capped at the
@@ -114,7 +116,7 @@ Theorem C09_user_offset_kept : forall c lib bmin bmax pref_total prev_dp prev_vo
                      (pref_total + u <= a_pmax params -> g0 <= a_gmax params + c_ext c -> dp == u)
      else pref_total + u <= a_pmax params -> dp == u) /\
     d_delta_p d = Some (d_dp d) /\ d_dp d - d_ovoa d == dp - voa.
-Proof. exact user_offset_kept. Qed.
+Proof. exact user_offset_kept_edfa. Qed.
 Print Assumptions C09_user_offset_kept.
 
 Theorem C09_user_gain_kept : forall c lib bmin bmax pref_total prev_dp prev_voa nl tp tp_arg prev next a d dp voa g,
@@ -126,7 +128,7 @@ Theorem C09_user_gain_kept : forall c lib bmin bmax pref_total prev_dp prev_voa 
     (if String.eqb (n_variety (an_node a)) ""
      then pout - ozero (an_ivoa a) <= a_pmax params -> g <= a_gmax params + c_ext c -> d_gain d == g
      else pout <= a_pmax params -> d_gain d == g).
-Proof. exact user_gain_kept. Qed.
+Proof. exact user_gain_kept_edfa. Qed.
 Print Assumptions C09_user_gain_kept.
 
 (* the test of the imposed-variety gain-mode branch is made before the input VOA: an operator gain can be reduced
@@ -155,7 +157,7 @@ Theorem C09_voa_rule : forall c lib bmin bmax pref_total prev_dp prev_voa nl tp 
                d_gain d == g0 + red + d_ovoa d /\ d_dp d == dp + d_ovoa d
           else d_ovoa d = 0 /\ d_gain d == g0 + red /\ d_dp d == dp)
      end).
-Proof. exact voa_rule. Qed.
+Proof. exact voa_rule_edfa. Qed.
 Print Assumptions C09_voa_rule.
 
 (* ---- the preparation (connectors, EOL, padding - operator att_in included) yields consistent span losses *)
@@ -171,15 +173,15 @@ Definition ex_lib : list amp :=
 Definition ex_nfs : list (string * Q) := [("low"%string, 7); ("med"%string, 6)].
 Definition ex_raw : list relem :=
   [RAmp (mkAN (mkNode "" []) None None None None ex_nfs);
-   RFib (mkRF 16 None None 0 [2 # 10000]);
+   RFib (mkRF 16 None None 0 [2 # 10000] None);
    RAmp (mkAN (mkNode "med" []) None (Some 1) None None []);
-   RFib (mkRF 4 None (Some (1 # 4)) 0 [2 # 10000]); RFus 1; RFib (mkRF 2 None None 0 [2 # 10000]);
+   RFib (mkRF 4 None (Some (1 # 4)) 0 [2 # 10000] None); RFus 1; RFib (mkRF 2 None None 0 [2 # 10000] None);
    RAmp (mkAN (mkNode "" []) None None (Some (1 # 2)) None ex_nfs);
-   RFib (mkRF 22 None None 0 [2 # 10000]);
+   RFib (mkRF 22 None None 0 [2 # 10000] None);
    RAmp (mkAN (mkNode "" []) None None None None ex_nfs)].
 
 Example ex_raw_ok : raw_ok ex_raw.
-Proof. cbn; tauto. Qed.
+Proof. split; cbn; intuition auto. Qed.
 
 Example ex_design :
   match design ex_cfg ex_lib 191300 196100 0 (16 # 1) (-20) (StartRoadm []) (EndRoadm []) (prep ex_cfg ex_raw) with
@@ -193,7 +195,7 @@ Proof. vm_compute. repeat split. Qed.
    connectors 0.5 + 0.5, padding 10) and an automatic VOA with margin 0 / step 0.5 and 0.3 dB of head-room *)
 Example ex_att_in_padded :
   let c := w_cfg true 1 in
-  let raw := [RAmp (w_amp None None None None); RFib (mkRF 4 (Some (1 # 2)) (Some (1 # 2)) 2 [2 # 10000]);
+  let raw := [RAmp (w_amp None None None None); RFib (mkRF 4 (Some (1 # 2)) (Some (1 # 2)) 2 [2 # 10000] None);
               RAmp (w_amp None None None None)] in
   match design c w_lib 191300 196100 0 10 (-20) (StartRoadm []) (EndRoadm []) (prep c raw) with
   | Ok ds => walk_okb 0 (-20) (prep c raw) ds = true /\ length ds = 2%nat
@@ -207,3 +209,24 @@ Example ex_voa_capped :
   | Err _ => False
   end.
 Proof. vm_compute. split; reflexivity. Qed.
+
+(* a Raman span (RamanFiber: 16 dB of fibre + 0.5 + 0.5 connectors + EOL 1.5, estimated gain 9.77 dB at the reference
+   power and 9.8949 dB at the designed input power): never padded, the booster's offset follows loss - 9.77, the
+   preamp's gain is loss - 9.8949 + change of target, and the budget closes with the designed estimate *)
+Definition ex_raman_raw : list relem :=
+  [RAmp (w_amp None None None None);
+   RFib (mkRF 16 (Some (1 # 2)) (Some (1 # 2)) 0 [2 # 10000] (Some (977 # 100, 98949 # 10000)));
+   RAmp (w_amp None None None None)].
+Definition ex_raman_cfg : span_cfg :=
+  mkSpan true [-2; 3; 1 # 2] 20 (3 # 10) 1 (1 # 2) (5 # 2) (1 # 4000) 12 (3 # 2) 0 0.
+
+Example ex_raman_ok : raw_ok ex_raman_raw.
+Proof. split; cbn; intuition auto. Qed.
+
+Example ex_raman :
+  match design ex_raman_cfg w_lib 191300 196100 0 10 (-20) (StartRoadm []) (EndRoadm []) (prep ex_raman_cfg ex_raman_raw) with
+  | Ok [b; p] => Qeq_bool (d_node_loss p) (18 + (1 # 2) - (98949 # 10000)) = true /\
+                 walk_okb 0 (-20) (prep ex_raman_cfg ex_raman_raw) [b; p] = true
+  | _ => False
+  end.
+Proof. vm_compute. repeat split. Qed.
